@@ -13,6 +13,12 @@ opposite, both orders must agree, and the literal default call `DFA.from_nfa(A) 
 DFA.from_nfa(B)` must agree (theorem `C09_eq_det_lib_default_renumbered`); if that call raises
 on valid operands it is a property failure (`det_call_raised`).  Pairs on which the oracle
 runs out of budget are counted and reported as a note in the evidence.
+
+Long-witness family (`harness/c09_longword.py`, `run_long_witness`): unions of coprime cycles /
+'n-th letter from the end' against near-equal partners — the shortest distinguishing word is as
+long as the lcm (far beyond |A| + |B|), or the walk meets 2^n subset pairs.  Oracle = pair walk
+over the family's own deterministic structure + the generic subset oracle; the Lean model is asked
+only on the members it answers quickly (`model_skipped_large_pair` counts the others).
 """
 from __future__ import annotations
 
@@ -21,6 +27,7 @@ import json
 from automata.fa.dfa import DFA
 from automata.fa.nfa import NFA
 
+from harness import c09_longword as LW
 from harness import gen
 from harness import nfaops_lib as L
 from harness.common import Ctx, Names, Toks, call, guarded
@@ -30,7 +37,7 @@ RULE = ("cases = ordered pairs of valid NFAs; bounded-exhaustive small pairs, th
         "random NFA by language-preserving rewrites (ε-elimination, determinise-and-embed, double reversal, "
         "edge splitting by ε, added unreachable / dead / duplicated states, renaming) — equivalent by construction "
         "— and by one-edge edits (add / drop / retarget one transition, flip one final state) — mostly "
-        "inequivalent, often only on one long word; equivalent pairs of 8–14 states per operand (one base table, states split differently on either side, or the union of two permuted split copies) on which the real == performs ≥ 10 union-find merges before it answers (merge count measured on the real run and recorded), and their one-edge edits; the same object on both sides; empty alphabet; independent random pairs; pairs over different alphabets; a "
+        "inequivalent, often only on one long word; equivalent pairs of 8–14 states per operand (one base table, states split differently on either side, or the union of two permuted split copies) on which the real == performs ≥ 10 union-find merges before it answers (merge count measured on the real run and recorded), and their one-edge edits; the long-witness family (harness/c09_longword.py): pairs whose SHORTEST distinguishing word is longer than |A| + |B| — a start state guessing (by ε or by a nondeterministic first step, after an optional tail) one of 2–5 cycles of pairwise coprime lengths, letters advancing the cycles by fixed weights (length counters, letter counters), against near-equal partners that differ only around the lcm (Σ+ / Σ*, the same cycles with one length changed / one final residue toggled / one cycle dropped / the other kind of start, the deterministic cycle of length lcm with or without one toggled state), lcm up to 420 and a few members with lcm 2310–4620 (word longer than the square of the state count) — and 'the n-th letter from the end is a hit', n ≤ 8, against rewrites of itself (twin copies, ε-split edges, the hand-written window DFA with or without one toggled window, one extra window Σ*w0): 2^n different subset pairs on ~3n states; each such pair is judged twice, by a pair walk over the family's own deterministic structure (residue tuples / windows; exact verdict and shortest word, re-confirmed through accepts_input) and by the generic subset oracle, the ratios word length / states and merged pairs / states are recorded; the same object on both sides; empty alphabet; independent random pairs; pairs over different alphabets; a "
         "case is non-trivial when both operands have ≥2 states and both languages are non-empty; distinct = "
         "distinct ordered pairs of definitions")
 ASSUMPTIONS = [
@@ -42,7 +49,9 @@ ASSUMPTIONS = [
 EXPLANATION = ("Theorems C09_* state that the model of NFA.__eq__ returns True exactly when the two languages are "
                "equal, for every union-find representative choice; this run ties the model to the code by "
                "differential execution and evaluates == / != on the real code against an independent decision "
-               "procedure for language equality.")
+               "procedure for language equality — including pairs of NFAs whose shortest distinguishing word is far longer than the "
+               "number of states (up to the lcm of coprime cycle lengths), where the DFA bound m + n on the length of a "
+               "distinguishing word does not apply and a depth- or size-limited pair walk would answer True wrongly.")
 
 
 def model_ask(ctx: Ctx, A: NFA, B: NFA):
@@ -103,9 +112,16 @@ def merges_of(A: NFA, B: NFA):
     return mc.n if r[0] == "ok" else None
 
 
-def check_pair(ctx: Ctx, A: NFA, B: NFA, origin: str, both_orders: bool = True):
+def check_pair(ctx: Ctx, A: NFA, B: NFA, origin: str, both_orders: bool = True, model: bool = True):
+    """`model=False` (only the largest members of the long-witness family, where the list-based Lean
+    model needs seconds per pair): the property is evaluated on the real code exactly as for every other
+    pair, the model correspondence is skipped and counted as `model_skipped_large_pair`."""
     obs = real_obs(A, B)
-    mod, encA, encB = model_ask(ctx, A, B)
+    if model:
+        mod, encA, encB = model_ask(ctx, A, B)
+    else:
+        mod, encA, encB = None, repr(A), repr(B)
+        ctx.stat("model_skipped_large_pair")
     same_alpha = set(A.input_symbols) == set(B.input_symbols)
     case = dict(A=repr(A), B=repr(B))
     # --- the property on the real code
@@ -166,10 +182,11 @@ def check_pair(ctx: Ctx, A: NFA, B: NFA, origin: str, both_orders: bool = True):
         ctx.stat("with_eps")
     if ctx.evaluations % 397 == 1:
         ctx.sample(dict(A=repr(A), B=repr(B), observed=obs, model=mod, oracle=verdict))
-    if obs != mod:
+    if model and obs != mod:
         ctx.corr_diff("NFA_EQ", case, obs, mod)
     if both_orders:
-        check_pair(ctx, B, A, origin + "_swapped", both_orders=False)
+        check_pair(ctx, B, A, origin + "_swapped", both_orders=False, model=model)
+    return verdict, (w if verdict == "differ" else None)
 
 
 def _nonempty(n: NFA) -> bool:
@@ -502,6 +519,134 @@ def run_many_merges(ctx: Ctx, n_pairs: int):
                  f"{sum(1 for c in cs if c >= 10)} pairs with ≥ 10 merges")
 
 
+# ------------------------------------- long shortest distinguishing words / exponentially many subset pairs
+MODEL_COST_LIMIT = 2500
+
+
+def _ratio_bucket(x: float) -> str:
+    return "le1" if x <= 1 else "1_2" if x <= 2 else "2_5" if x <= 5 else "5_20" if x <= 20 else "gt20"
+
+
+def check_long_witness_pair(ctx: Ctx, kind: str, A: NFA, sa, B: NFA, sb, size: int, origin: str):
+    """One pair of the long-witness family.  Two library-independent oracles: the pair walk over the
+    family's own deterministic structure (`LW.decide` on the Specs: exact verdict + a SHORTEST
+    distinguishing word) and, inside `check_pair`, the generic subset construction over the real
+    definitions.  The family verdict is re-confirmed on the real objects (witness word through the real
+    `accepts_input`; for equal pairs a sample of words around the lcm) and `==` / `!=` in both orders are
+    judged against it; then the pair goes through `check_pair` (model correspondence, symmetry,
+    determinisation clause)."""
+    fam, w, pairs = LW.decide(sa, sb, A.input_symbols)
+    if fam == "budget":
+        ctx.stat("long_witness_family_oracle_budget")
+        return None
+    n_states = len(A.states) + len(B.states)
+    summary = (fam, len(w) if fam == "differ" else None, n_states, pairs)
+    ctx.stat("long_witness_pairs")
+    ctx.stat("long_witness_" + kind)
+    ctx.stat("long_witness_languages_" + fam)
+    ctx.stat("long_witness_det_pairs_over_states_" + _ratio_bucket(pairs / n_states))
+    confirmed = True
+    if fam == "differ":
+        ctx.stat("long_witness_word_over_states_" + _ratio_bucket(len(w) / n_states))
+        if len(w) > n_states:
+            ctx.stat("long_witness_word_longer_than_states_A_plus_B")
+        if len(w) > len(A.states) * len(B.states):
+            ctx.stat("long_witness_word_longer_than_states_A_times_B")
+        if len(w) > n_states ** 2:
+            ctx.stat("long_witness_word_longer_than_square_of_states")
+        ra, rb = call(lambda: A.accepts_input(w)), call(lambda: B.accepts_input(w))
+        if ra[0] != "ok" or rb[0] != "ok" or ra[1] == rb[1] or ra[1] != sa.accepts(w) or rb[1] != sb.accepts(w):
+            confirmed = False
+    else:
+        # equal by the family's structure: the real readers must agree with the Specs on words around the lcm
+        sy = sorted(A.input_symbols)
+        for _ in range(6):
+            k = ctx.rng.choice([size, size - 1, size + 1, 2 * size, ctx.rng.randrange(0, 2 * size + 2)]) if size <= 5000 \
+                else ctx.rng.randrange(0, 40)
+            u = "".join(ctx.rng.choice(sy) for _ in range(max(k, 0))) if len(sy) > 1 and ctx.rng.random() < 0.5 else sy[0] * max(k, 0)
+            ra, rb = call(lambda: A.accepts_input(u)), call(lambda: B.accepts_input(u))
+            if ra != ("ok", sa.accepts(u)) or rb != ("ok", sb.accepts(u)):
+                confirmed = False
+    if not confirmed:
+        # the real readers do not agree with the family's structure: the builder or accepts_input is off —
+        # not a statement about ==; the generic oracle of check_pair still judges the pair
+        ctx.stat("long_witness_family_oracle_not_confirmed")
+        ctx.note(f"long-witness family: structure oracle not confirmed by accepts_input on {sa.descr} / {sb.descr}")
+    else:
+        equal = fam == "equal"
+        want = (("ok", equal), ("ok", not equal))
+        for X, Y, how in ((A, B, "A == B"), (B, A, "B == A")):
+            with MergeCount() as mc:
+                got = (call(lambda: X == Y), call(lambda: X != Y))
+            if how == "A == B":
+                ctx.stat("long_witness_hk_merges_over_states_" + _ratio_bucket(mc.n / 2 / n_states))
+            if got != want:
+                ctx.prop_fail(f"NFA == on a pair whose shortest distinguishing word is long ({kind}: {sa.descr} vs {sb.descr}; "
+                              f"{len(A.states)} + {len(B.states)} states, {pairs} pairs of determinised states), {how}: "
+                              f"== is {got[0]}, != is {got[1]}, but the languages are "
+                              + ("equal" if equal else f"different (shortest word has length {len(w)}: {_short(w)}; "
+                                                       f"A {'accepts' if sa.accepts(w) else 'rejects'}, B {'accepts' if sb.accepts(w) else 'rejects'} it, "
+                                                       f"confirmed by accepts_input)"),
+                              dict(A=repr(A), B=repr(B), distinguishing_word=w, family=kind), None)
+                return summary
+    before = ctx.n_prop_fails
+    # the Lean model works on lists: its cost grows like (subset pairs) × (states); the correspondence is
+    # run on the members it answers within ~0.3 s, the property on all of them
+    with_model = pairs * n_states <= MODEL_COST_LIMIT
+    # both orders of == / != were judged above; check_pair itself compares A == B with B == A
+    res = check_pair(ctx, A, B, origin, both_orders=False, model=with_model)
+    if confirmed and res is not None and res[0] in ("equal", "differ") and ctx.n_prop_fails == before:
+        if res[0] != fam or (fam == "differ" and len(res[1]) != len(w)):
+            ctx.stat("long_witness_two_oracles_disagree")
+            ctx.note(f"long-witness family: structure oracle says {fam} ({w!r:.60}), subset oracle says {res[0]} "
+                     f"({res[1]!r:.60}) on {sa.descr} / {sb.descr}")
+    return summary
+
+
+def _short(w: str) -> str:
+    if len(w) <= 40:
+        return repr(w)
+    if len(set(w)) == 1:
+        return f"{w[0]}^{len(w)}"
+    return repr(w[:20]) + "…" + repr(w[-12:])
+
+
+def run_long_witness(ctx: Ctx, n_cycles: int, n_nth: int, n_big: int, max_n: int, origin: str = "long_witness"):
+    """The family of harness/c09_longword.py: unions of coprime cycles against near-equal partners (first
+    difference at the lcm), 'n-th letter from the end' against rewrites / one added window, and a few
+    members with lcm in the thousands (longer than the SQUARE of the state count)."""
+    rng = ctx.rng
+    done = []
+
+    def go(kind, A, sa, B, sb, size, origin):
+        if rng.random() < 0.5:   # the small near-equal partner on the left as often as on the right
+            A, sa, B, sb, kind = B, sb, A, sa, kind + "_swapped"
+        r = check_long_witness_pair(ctx, kind, A, sa, B, sb, size, origin)
+        if r is not None:
+            done.append(r)
+    for _ in range(n_cycles):
+        go(*LW.cycles_pair(rng), origin)
+    for i in range(n_nth):
+        n = 2 + (i % (max_n - 1))
+        ctx.stat(f"long_witness_nth_n_{n}")
+        go(*LW.nth_pair(rng, n), origin)
+    for i in range(n_big):
+        # the first two of every run: small partner, first difference exactly at the lcm (> (|A| + |B|)^2) / at the
+        # solution of the congruences (anywhere below the lcm)
+        force = ("nonzero", "sigma") if i == 0 else ("all_but_one", "sigma") if i == 1 else None
+        kind, A, sa, B, sb, size = LW.cycles_pair(rng, big=True, force=force)
+        go("big_" + kind, A, sa, B, sb, size, origin + "_big")
+    diff = [(wl, ns) for fam, wl, ns, _ in done if fam == "differ"]
+    if done:
+        longer = [(wl, ns) for wl, ns in diff if wl > ns]
+        best = max(diff, key=lambda x: x[0] / x[1]) if diff else None
+        ctx.note(f"long-witness family: {len(done)} pairs ({len(done) - len(diff)} equal, {len(diff)} different); shortest "
+                 f"distinguishing word longer than |A| + |B| on {len(longer)} pairs, longer than (|A| + |B|)^2 on "
+                 f"{sum(1 for wl, ns in diff if wl > ns * ns)}"
+                 + (f"; largest ratio: a word of length {best[0]} for {best[1]} states in total" if best else "")
+                 + f"; pairs of determinised states walked by the structure oracle: max {max(p for *_, p in done)}")
+
+
 def corpus():
     a = NFA(states={0, 1}, input_symbols={"a"}, transitions={0: {"": {1}}, 1: {}}, initial_state=0, final_states={1})
     b = NFA(states={0}, input_symbols={"a"}, transitions={0: {}}, initial_state=0, final_states={0})
@@ -562,6 +707,9 @@ def run(ctx: Ctx):
             check_pair(ctx, A, C, "one_edge_edit")
     # 2b. equivalent pairs of 8–14 states that force ≥ 10 union-find merges before the verdict
     run_many_merges(ctx, ctx.budget(150, 4000))
+    # 2b'. shortest distinguishing word longer than |A| + |B| (up to the lcm of coprime cycle lengths), and
+    # exponentially many subset pairs on few states ('n-th letter from the end')
+    run_long_witness(ctx, ctx.budget(100, 1500), ctx.budget(24, 300), ctx.budget(4, 40), 9 if thorough else 8)
     # 2c. the same object on both sides; empty alphabet
     for _ in range(ctx.budget(60, 1500)):
         A = gen.rand_nfa(rng, 5, alphabet=rng.choice(gen.ALPHABETS[:5]))
@@ -642,6 +790,7 @@ def search(ctx: Ctx):
             check_pair(ctx, A, C, "search_edit")
         if ctx.n_prop_fails:
             return
+    run_long_witness(ctx, ctx.budget(300, 3000), ctx.budget(60, 400), ctx.budget(8, 40), 9, origin="search_long_witness")
 
 
 def _stream_verdicts(anchor: NFA, T: NFA):
@@ -793,7 +942,9 @@ def replay(ctx: Ctx, path: str) -> int:
         return 0
     A = eval(rp["A"], env)
     B = eval(rp["B"], env)
-    check_pair(ctx, A, B, "replay")
+    # pairs of the long-witness family carry `family`: the list-based Lean model may need minutes on the
+    # largest of them, and a replay is a statement about the real code only
+    check_pair(ctx, A, B, "replay", model="family" not in rp)
     if ctx.prop_fails:
         print(f"VIOLATION property=C09 replay={path}")
         print("  " + ctx.prop_fails[0]["what"])
